@@ -667,12 +667,12 @@ func perms(n int) [][]int {
 }
 
 var ruleAttrs = map[string][]attrVal{
-	"srcs":          {{"srcs", `["b.txt", "a.txt"]`, "unsorted-files"}, {"srcs", `["a.txt", "a.txt"]`, "duplicate-files"}, {"srcs", `[":z", ":y"]`, "unsorted-labels"}, {"srcs", `["//q:q"]`, "redundant-target-name"}},
+	"srcs":          {{"srcs", `["b.txt", "a.txt"]`, "unsorted-files"}, {"srcs", `["a.txt", "a.txt"]`, "duplicate-files"}, {"srcs", `[":z", ":y"]`, "unsorted-labels"}, {"srcs", `["//q:q"]`, "redundant-target-name"}, {"srcs", `["@r//q:q"]`, "subrepo-redundant-target-name"}},
 	"deps":          {{"deps", `["//b:x", "//a:x"]`, "unsorted-labels"}, {"deps", `["//a:a"]`, "redundant-target-name"}, {"deps", `["//a" + ":x"]`, "concatenated-label"}, {"deps", `["@r//:r"]`, "subrepo-redundant-target-name"}, {"deps", `[":y", ":y"]`, "duplicate-labels"}},
 	"visibility":    {{"visibility", `["//b/...", "//a/..."]`, "unsorted"}, {"visibility", `["PUBLIC"]`, "public"}},
 	"labels":        {{"labels", `["b", "a"]`, "unsorted"}, {"labels", `["a", "a"]`, "duplicate"}},
-	"tools":         {{"tools", `["//t:b", "//t:a"]`, "unsorted-labels"}, {"tools", `["//t:t"]`, "redundant-target-name"}},
-	"data":          {{"data", `["d2.txt", "d1.txt"]`, "unsorted-files"}},
+	"tools":         {{"tools", `["//t:b", "//t:a"]`, "unsorted-labels"}, {"tools", `["//t:t"]`, "redundant-target-name"}, {"tools", `["@r//t:t"]`, "subrepo-redundant-target-name"}},
+	"data":          {{"data", `["d2.txt", "d1.txt"]`, "unsorted-files"}, {"data", `["@r//d:d"]`, "subrepo-redundant-target-name"}},
 	"outs":          {{"outs", `["b.out", "a.out"]`, "unsorted"}},
 	"tag":           {{"tag", `"tg"`, "set"}},
 	"test_only":     {{"test_only", `True`, "set"}},
